@@ -62,7 +62,7 @@ Print Assumptions C01_empty_unit_right.
 Theorem C01_first_stops : forall bs n rho t c g v ps k,
   lookup_fun rho (codes "first") 1 = None -> lookup_builtin bs (codes "first") 1 = Some first_def ->
   meq (eval_q bs (12 + n) rho (q_call (codes "first") [q_bin (q_lit t c) OpComma g]) v ps k)
-      (tick ;; l <- fresh ;; catch_break l (tick ;; (k (plain (VNum c)) ps ;; raise (XBreak l)))).
+      (tick ;; with_label (scoped_ids ps) (fun l => tick ;; (k (plain (VNum c)) ps ;; raise (XBreak l)))).
 Proof. exact first_law. Qed.
 Print Assumptions C01_first_stops.
 
@@ -84,7 +84,7 @@ Print Assumptions C01_try_not_downstream.
 Theorem C01_label_break : forall bs n rho x t c B v ps k,
   meq (eval_q bs (S (S (S (S (S (S n)))))) rho
          (q_term (TLabel x (q_bin (q_lit t c) OpComma (q_bin (q_break x) OpComma B)))) v ps k)
-      (l <- fresh ;; catch_break l (k (plain (VNum c)) ps ;; raise (XBreak l))).
+      (with_label (scoped_ids ps) (fun l => k (plain (VNum c)) ps ;; raise (XBreak l))).
 Proof. exact label_break_law. Qed.
 Print Assumptions C01_label_break.
 
@@ -127,7 +127,7 @@ Proof. exact path_pipe_fields_law. Qed.
 Print Assumptions C01_path_concat.
 
 (* (4) towards C01_full: on the state-free fragment F0 (identity, scalar literals, pipe, comma, empty, t[], t.k,
-   if/else, try/catch, error, length, `src as $x | body`, $x, [q], reduce, //) the demand-driven CPS semantics IS the eager
+   if/else, try/catch, error, length, `src as $x | body`, $x, [q], reduce, foreach, //) the demand-driven CPS semantics IS the eager
    list semantics den0, written clause by clause like coq/c01vm/Den.v (which coq/c01vm proves equal to the
    compiled code running on the VM): for every continuation, hence for every observation *)
 Theorem C01_sem_is_list_semantics_F0 : forall bs rs,
